@@ -283,7 +283,8 @@ let opt_n (s : string) : n option = if s = "-" then None else Some (n_of_int (in
    -> outcomes joined by '|'  TAB  hex stdout  TAB  ticks  TAB  frames *)
 let () = register "machine" (fun args ->
     match args with
-    | [fuel; tl; sl; resume; intr; hexsrc] ->
+    | fuel :: tl :: sl :: resume :: intr :: hexsrc :: rest ->
+      let do_abort = (rest = ["abort"]) in
       (try
          reset_syms ();
          let items = parse_sexps (unhex hexsrc) in
@@ -325,9 +326,12 @@ let () = register "machine" (fun args ->
            let failed = ref (eval_once ()) in
            let k = ref 0 in
            while !failed && !k < resume do failed := eval_once (); incr k done;
+           let frames_before_abort = if do_abort then begin
+               let fb = (st := abort !st; frames_summary !st) in
+               ignore (eval_once ()); fb ^ "/" end else "" in
            let outs = String.concat "" (List.rev_map utf8_of_chars !st.out) in
            String.concat "|" (List.rev !outcomes) ^ "\t" ^ hex outs ^ "\t" ^ string_of_int (int_of_n !st.ticks)
-           ^ "\t" ^ frames_summary !st
+           ^ "\t" ^ frames_before_abort ^ frames_summary !st
          end
        with Unsup why -> "unsupported:" ^ why ^ "\t-\t0\t-")
     | _ -> "error\targs")
